@@ -234,6 +234,13 @@ def run(tier, seed):
         {"id": "rewind_unknown", "no_provider": True, "input": json.dumps({"checkpoint": {"action": "rewind", "id": "nope"}}), "_thread": ["message", "run_spawned", "run_ended"]},
         {"id": "prompt_no_provider", "no_provider": True, "input": "hello", "_thread": ["message", "run_spawned", "run_ended"]},
         {"id": "dead_endpoint", "dead_endpoint": True, "script": [], "input": "hello", "_thread": ["message", "run_spawned", "selection_decided", "context_compiled", "run_ended"]},
+        # the snapshot of the run's session cannot be written at the end of the run: the run is closed all the same
+        {"id": "snapshot_unwritable_tool", "no_provider": True, "input": json.dumps({"tool": "write", "args": {"path": "s.txt", "content": "x"}}),
+         "pre": [{"do": "break_snapshots_dir"}], "_thread": ["message", "run_spawned", "side_effects", "run_ended"]},
+        {"id": "snapshot_unwritable_prompt", "script": [{"status": 200, "chunks": ["data: [DONE]\n\n"]}] * 2, "input": "hello",
+         "pre": [{"do": "post_message_wait", "content": "first"}, {"do": "break_snapshots_dir"}], "_thread": None},
+        {"id": "snapshot_unwritable_dead_endpoint", "dead_endpoint": True, "script": [], "input": "hello", "pre": [{"do": "break_snapshots_dir"}],
+         "_thread": ["message", "run_spawned", "selection_decided", "context_compiled", "run_ended"]},
         {"id": "compile_failure", "script": [{"status": 200, "chunks": ["data: [DONE]\n\n"]}] * 3, "input": "third",
          "pre": [{"do": "post_message_wait", "content": "first"}, {"do": "post_message_wait", "content": "second"},
                  {"do": "checkpoint_last_message"}, {"do": "delete_artifacts"}], "_thread": None},
